@@ -17,16 +17,17 @@ class Untranslatable(Exception):
     pass
 
 
-INT, BYTES, BOOL = 'int', 'bytes', 'bool'
+INT, BYTES, BOOL, INTS = 'int', 'bytes', 'bool', 'ints'
 
 
 class Fn:
-    def __init__(self, name, args, ret, coq_name=None, partial=True):
+    def __init__(self, name, args, ret, coq_name=None, partial=True, while_fuel=None):
         self.name, self.args, self.ret, self.partial = name, args, ret, partial
+        self.while_fuel = list(while_fuel or [])   # Python expressions (int) bounding the iterations of each while loop, in order
         self.coq_name = coq_name or 'gen_' + name
 
 
-COQ_TY = {INT: 'Z', BYTES: 'bytes', BOOL: 'bool'}
+COQ_TY = {INT: 'Z', BYTES: 'bytes', BOOL: 'bool', INTS: '(list Z)'}
 
 
 def coq_type(t):
@@ -40,6 +41,9 @@ class Tr:
         self.fns = fns          # name -> Fn (translated functions callable from here)
         self.env = dict(env)    # variable -> type
         self.counter = 0
+        self.consts = {}        # loop variables of unrolled range() loops -> literal
+        self.static_len = {}    # list variables assigned a literal -> length
+        self.while_fuel = []
 
     def fresh(self):
         self.counter += 1
@@ -57,6 +61,16 @@ class Tr:
             if isinstance(v, bytes):
                 return [], '[' + '; '.join('x%02x' % b for b in v) + ']', BYTES
             raise Untranslatable('constant %r' % (v,))
+        if isinstance(e, ast.Name) and e.id in self.consts:
+            return [], str(self.consts[e.id]), INT
+        if isinstance(e, ast.List):
+            terms = []
+            for el in e.elts:
+                b, t, y = self.expr(el)
+                if b or y != INT:
+                    raise Untranslatable('list literal element')
+                terms.append(t)
+            return [], '[' + '; '.join(terms) + ']', INTS
         if isinstance(e, ast.Name):
             if e.id not in self.env:
                 raise Untranslatable('unknown name ' + e.id)
@@ -108,7 +122,8 @@ class Tr:
                 cur = r
             return binds, out, BOOL
         if isinstance(e, ast.IfExp):
-            bt, tt, _ = self.expr(e.test)
+            bt, tt, yt = self.expr(e.test)
+            tt = self.as_bool(tt, yt)
             b1, t1, y1 = self.expr(e.body)
             b2, t2, y2 = self.expr(e.orelse)
             if b1 or b2 or y1 != y2:
@@ -116,6 +131,12 @@ class Tr:
             return bt, '(if %s then %s else %s)' % (tt, t1, t2), y1
         if isinstance(e, ast.Subscript):
             bv, tv, yv = self.expr(e.value)
+            if yv == INTS and not isinstance(e.slice, ast.Slice):
+                bi, ti, yi = self.expr(e.slice)
+                if bi or yi != INT or not ti.isdigit() or not isinstance(e.value, ast.Name) \
+                        or int(ti) >= self.static_len.get(e.value.id, 0):
+                    raise Untranslatable('list index must be a literal inside a literal list')
+                return bv, '(nth %s %s 0)' % (ti, tv), INT
             if yv != BYTES:
                 raise Untranslatable('subscript of non-bytes')
             s = e.slice
@@ -212,6 +233,8 @@ class Tr:
             return '(negb (%s =? 0))' % t
         if ty == BYTES:
             return '(negb (py_len %s =? 0))' % t
+        if ty == INTS:
+            return '(negb (Nat.eqb (length %s) 0))' % t
         raise Untranslatable('truthiness of ' + str(ty))
 
     def compare(self, op, l, r):
@@ -226,6 +249,32 @@ class Tr:
             return c if op is ast.Eq else '(negb %s)' % c
         raise Untranslatable('comparison %s on %s,%s' % (op.__name__, y1, y2))
 
+    def carried(self, body):
+        names = []
+        for node in body:
+            for n in ast.walk(node):
+                tgt = None
+                if isinstance(n, ast.Assign) and len(n.targets) == 1 and isinstance(n.targets[0], ast.Name):
+                    tgt = n.targets[0].id
+                elif isinstance(n, ast.AugAssign) and isinstance(n.target, ast.Name):
+                    tgt = n.target.id
+                elif isinstance(n, ast.Call) and isinstance(n.func, ast.Attribute) and n.func.attr == 'append' \
+                        and isinstance(n.func.value, ast.Name):
+                    tgt = n.func.value.id
+                if tgt and tgt in self.env and tgt not in names:
+                    names.append(tgt)
+        return names
+
+    def tuple_of(self, vs):
+        return vs[0] if len(vs) == 1 else '(' + ', '.join(vs) + ')'
+
+    def pattern_of(self, vs):
+        return vs[0] if len(vs) == 1 else "'(" + ', '.join(vs) + ')'
+
+    def type_of(self, vs):
+        ts = [coq_type(self.env[v]) for v in vs]
+        return ts[0] if len(ts) == 1 else '(' + ' * '.join(ts) + ')'
+
     @staticmethod
     def wrap(binds, body):
         for n, t in reversed(binds):
@@ -239,6 +288,88 @@ class Tr:
         s, rest = body[0], body[1:]
         if isinstance(s, ast.Expr) and isinstance(s.value, ast.Constant) and isinstance(s.value.value, str):
             return self.stmts(rest, ret)
+        if isinstance(s, _SetConst):
+            saved = dict(self.consts)
+            self.consts[s.name] = s.k
+            try:
+                return self.stmts(rest, ret)
+            finally:
+                self.consts = saved
+        if isinstance(s, _DelConst):
+            saved = dict(self.consts)
+            self.consts.pop(s.name, None)
+            try:
+                return self.stmts(rest, ret)
+            finally:
+                self.consts = saved
+        if isinstance(s, _Yield):
+            if rest:
+                raise Untranslatable('internal: yield not last')
+            return 'Some ' + self.tuple_of(s.vars)
+        if isinstance(s, ast.Return) and isinstance(s.value, ast.Constant) and s.value.value is None:
+            return 'None'      # Python None result = no result
+        if isinstance(s, ast.Expr) and isinstance(s.value, ast.Call) and isinstance(s.value.func, ast.Attribute) \
+                and s.value.func.attr == 'append' and isinstance(s.value.func.value, ast.Name) \
+                and self.env.get(s.value.func.value.id) == INTS and len(s.value.args) == 1:
+            name = s.value.func.value.id
+            b, t, y = self.expr(s.value.args[0])
+            if y != INT:
+                raise Untranslatable('append of non-int')
+            self.static_len.pop(name, None)
+            return self.wrap(b, '(let %s := (%s ++ [%s]) in %s)' % (name, name, t, self.stmts(rest, ret)))
+        if isinstance(s, ast.For):
+            if s.orelse or not isinstance(s.target, ast.Name):
+                raise Untranslatable('for loop shape')
+            it = s.iter
+            if isinstance(it, ast.Call) and isinstance(it.func, ast.Name) and it.func.id == 'range' and len(it.args) == 1 \
+                    and isinstance(it.args[0], ast.Constant) and isinstance(it.args[0].value, int) and 0 <= it.args[0].value <= 64:
+                flat = []
+                for k in range(it.args[0].value):
+                    flat.append(_SetConst(s.target.id, k))
+                    flat += list(s.body)
+                flat.append(_DelConst(s.target.id))
+                return self.stmts(flat + rest, ret)
+            bi, ti, yi = self.expr(it)
+            if yi not in (INTS, BYTES):
+                raise Untranslatable('for loop over ' + str(yi))
+            carried = self.carried(s.body)
+            if not carried:
+                raise Untranslatable('loop without carried variables')
+            saved = dict(self.env)
+            self.env[s.target.id] = INT
+            elem = s.target.id if yi == INTS else '(bz %s)' % s.target.id
+            body = self.stmts(list(s.body) + [_Yield(carried)], ret)
+            self.env = saved
+            for v in carried:
+                self.static_len.pop(v, None)
+            pat = self.pattern_of(carried)
+            fn = '(fun st__ %s => st0__ <- st__ ;; (let %s := st0__ in %s))' % (
+                s.target.id if yi == INTS else s.target.id + '__b', pat,
+                body if yi == INTS else '(let %s := bz %s__b in %s)' % (s.target.id, s.target.id, body))
+            cont = self.stmts(rest, ret)
+            return self.wrap(bi, '(match fold_left %s %s (Some %s) with Some %s => %s | None => None end)' % (
+                fn, ti, self.tuple_of(carried), self.tuple_of(carried), cont))
+        if isinstance(s, ast.While):
+            if s.orelse or not self.while_fuel:
+                raise Untranslatable('while loop without a declared fuel bound')
+            fuel_src = self.while_fuel.pop(0)
+            bf, tf, yf = self.expr(ast.parse(fuel_src, mode='eval').body)
+            if bf or yf != INT:
+                raise Untranslatable('while fuel expression')
+            carried = self.carried(s.body)
+            bc, tc, yc = self.expr(s.test)
+            if bc:
+                raise Untranslatable('partial operation in while condition')
+            tc = self.as_bool(tc, yc)
+            body = self.stmts(list(s.body) + [_Yield(carried)], ret)
+            for v in carried:
+                self.static_len.pop(v, None)
+            pat = self.pattern_of(carried)
+            loop = ('((fix loop__ (fuel__ : nat) (st__ : %s) {struct fuel__} : option %s := match fuel__ with O => None | S f__ => '
+                    'let %s := st__ in if %s then (match %s with Some st1__ => loop__ f__ st1__ | None => None end) else Some st__ end) '
+                    '(S (Z.to_nat %s)) %s)') % (self.type_of(carried), self.type_of(carried), pat, tc, body, tf, self.tuple_of(carried))
+            cont = self.stmts(rest, ret)
+            return '(match %s with Some %s => %s | None => None end)' % (loop, self.tuple_of(carried), cont)
         if isinstance(s, ast.Return):
             if isinstance(s.value, ast.Tuple):
                 if not isinstance(ret, tuple) or len(ret) != len(s.value.elts):
@@ -263,15 +394,21 @@ class Tr:
             name = s.targets[0].id
             b, t, y = self.expr(s.value)
             saved = dict(self.env)
+            saved_len = dict(self.static_len)
             self.env[name] = y
+            if isinstance(s.value, ast.List):
+                self.static_len[name] = len(s.value.elts)
+            else:
+                self.static_len.pop(name, None)
             r = self.wrap(b, '(let %s := %s in %s)' % (name, t, self.stmts(rest, ret)))
             self.env = saved
+            self.static_len = saved_len
             return r
         if isinstance(s, ast.AugAssign):
-            if not isinstance(s.target, ast.Name) or not isinstance(s.op, ast.Add):
+            if not isinstance(s.target, ast.Name) or not isinstance(s.op, (ast.Add, ast.Sub, ast.BitXor, ast.BitOr, ast.BitAnd)):
                 raise Untranslatable('augmented assignment')
             new = ast.Assign(targets=[ast.Name(id=s.target.id, ctx=ast.Store())],
-                             value=ast.BinOp(left=ast.Name(id=s.target.id, ctx=ast.Load()), op=ast.Add(), right=s.value))
+                             value=ast.BinOp(left=ast.Name(id=s.target.id, ctx=ast.Load()), op=s.op, right=s.value))
             return self.stmts([new] + rest, ret)
         if isinstance(s, ast.If):
             # whitelisted type guard: `if not isinstance(x, T): raise ...` is dropped (the model is typed)
@@ -290,6 +427,21 @@ class Tr:
         raise Untranslatable('statement ' + type(s).__name__)
 
 
+class _SetConst:
+    def __init__(self, name, k):
+        self.name, self.k = name, k
+
+
+class _DelConst:
+    def __init__(self, name):
+        self.name = name
+
+
+class _Yield:
+    def __init__(self, vars):
+        self.vars = vars
+
+
 def translate_function(src_tree, fn, fns):
     node = None
     for n in src_tree.body:
@@ -298,9 +450,12 @@ def translate_function(src_tree, fn, fns):
     if node is None:
         raise Untranslatable('function %s not found' % fn.name)
     params = [a.arg for a in node.args.args]
-    if params != [a for a, _ in fn.args] or node.args.defaults or node.args.vararg or node.args.kwarg:
+    if params != [a for a, _ in fn.args] or node.args.vararg or node.args.kwarg:
         raise Untranslatable('signature of %s changed: %r' % (fn.name, params))
     tr = Tr(fns, dict(fn.args))
+    tr.while_fuel = list(fn.while_fuel)
     body = tr.stmts(list(node.body), fn.ret)
+    if tr.while_fuel:
+        raise Untranslatable('unused while fuel declarations in ' + fn.name)
     args = ' '.join('(%s : %s)' % (a, coq_type(t)) for a, t in fn.args)
     return 'Definition %s %s : option %s :=\n  %s.\n' % (fn.coq_name, args, coq_type(fn.ret), body)
